@@ -61,6 +61,9 @@ func ghostLayout(t types.Type) ([]string, bool) {
 	if isNamed(t, "github.com/kkdai/bstream", "BStream") {
 		return []string{"int"}, true // number of bits written so far (writers); meaningless for readers
 	}
+	if isNamed(t, "container/list", "List") {
+		return []string{"int"}, true // an integer naming the list's abstract state (see spec/list.spec)
+	}
 	if isNamed(t, "bytes", "Buffer") {
 		return []string{"int"}, true // number of unread bytes held (append-only writer / consuming reader)
 	}
@@ -450,6 +453,10 @@ func validFacts(v *Val, next *Term, out []*Term) []*Term {
 			Implies(Eq(v.Ref, IntLit(0)), Eq(v.Len, IntLit(0))))
 	case VIface:
 		out = append(out, refOK(v.Ref), Le(IntLit(0), v.S), Implies(Eq(v.S, IntLit(0)), Eq(v.Ref, IntLit(0))))
+		// a non-nil value of static interface type T has a dynamic type that implements T (type system)
+		if it := implTerm(v.T, v.S); it != nil {
+			out = append(out, Implies(Not(Eq(v.S, IntLit(0))), it))
+		}
 	case VMap, VFunc:
 		if v.S.S == IntS {
 			out = append(out, refOK(v.S), Le(IntLit(0), v.S))
@@ -722,4 +729,22 @@ func allKindsNow() []string {
 	}
 	sort.Strings(out)
 	return out
+}
+
+// implTerm: "the dynamic type with tag `tag` implements interface type t" — an uninterpreted predicate per
+// named interface type with methods (nil for the empty interface and unnamed interfaces).
+func implTerm(t types.Type, tag *Term) *Term {
+	if t == nil {
+		return nil
+	}
+	n, ok := t.(*types.Named)
+	if !ok || n.Obj().Pkg() == nil {
+		return nil
+	}
+	it, ok := t.Underlying().(*types.Interface)
+	if !ok || it.NumMethods() == 0 {
+		return nil
+	}
+	name := DeclareFun("implements!"+shortPkg(n.Obj().Pkg().Path())+"."+n.Obj().Name(), []*Sort{IntS}, BoolS)
+	return App(name, BoolS, tag)
 }
